@@ -132,6 +132,9 @@ type declInfo struct {
 	// inside (only acceptable for a call in tail position, where it stays a defer of the caller)
 	defers      []*ast.DeferStmt
 	nestedDefer bool
+	// pure: the body has no effects (no calls but len/cap, no sends, receives, go, defer, stores through
+	// pointers or to non-local variables): a call of it may be evaluated earlier than written
+	pure bool
 }
 
 func hasTypeParam(t types.Type) bool {
@@ -210,6 +213,7 @@ func inlinePass(ref RefDecls, pkgs []*packages.Package, overlay map[string][]byt
 				if fd.Recv != nil && len(fd.Recv.List) == 1 && len(fd.Recv.List[0].Names) > 1 {
 					di.ok, di.why = false, "receiver"
 				}
+				di.pure = pureFuncBody(pk, fd)
 				ast.Inspect(fd.Body, func(n ast.Node) bool {
 					switch x := n.(type) {
 					case *ast.FuncLit:
@@ -423,6 +427,86 @@ func blankLines(b []byte) string {
 	return strings.Repeat("\n", n)
 }
 
+// pureFuncBody: see declInfo.pure.
+func pureFuncBody(pk *packages.Package, fd *ast.FuncDecl) bool {
+	pure := true
+	local := func(e ast.Expr) bool {
+		id, ok := e.(*ast.Ident)
+		if !ok {
+			return false
+		}
+		if id.Name == "_" {
+			return true
+		}
+		o := pk.TypesInfo.Defs[id]
+		if o == nil {
+			o = pk.TypesInfo.Uses[id]
+		}
+		v, ok := o.(*types.Var)
+		return ok && v.Parent() != nil && v.Parent() != pk.Types.Scope() && !v.IsField()
+	}
+	ast.Inspect(fd.Body, func(n ast.Node) bool {
+		switch x := n.(type) {
+		case *ast.CallExpr:
+			if id, ok := x.Fun.(*ast.Ident); ok && (id.Name == "len" || id.Name == "cap") {
+				return true
+			}
+			if tv, ok := pk.TypesInfo.Types[x.Fun]; ok && tv.IsType() {
+				return true
+			}
+			pure = false
+		case *ast.SendStmt, *ast.GoStmt, *ast.DeferStmt, *ast.FuncLit, *ast.SelectStmt:
+			pure = false
+		case *ast.UnaryExpr:
+			if x.Op == token.ARROW {
+				pure = false
+			}
+		case *ast.AssignStmt:
+			for _, l := range x.Lhs {
+				if !local(l) {
+					pure = false
+				}
+			}
+		case *ast.IncDecStmt:
+			if !local(x.X) {
+				pure = false
+			}
+		}
+		return pure
+	})
+	return pure
+}
+
+// pureArgs: the arguments (and the receiver) of call have no effects.
+func pureArgs(call *ast.CallExpr) bool {
+	pure := true
+	check := func(e ast.Expr) {
+		ast.Inspect(e, func(n ast.Node) bool {
+			switch x := n.(type) {
+			case *ast.CallExpr:
+				if id, ok := x.Fun.(*ast.Ident); ok && (id.Name == "len" || id.Name == "cap") {
+					return true
+				}
+				pure = false
+			case *ast.FuncLit:
+				pure = false
+			case *ast.UnaryExpr:
+				if x.Op == token.ARROW {
+					pure = false
+				}
+			}
+			return pure
+		})
+	}
+	if sel, ok := call.Fun.(*ast.SelectorExpr); ok {
+		check(sel.X)
+	}
+	for _, a := range call.Args {
+		check(a)
+	}
+	return pure
+}
+
 func dbg(format string, a ...any) {
 	if os.Getenv("SA_INLINE_DEBUG") != "" {
 		fmt.Fprintf(os.Stderr, "   inline: "+format+"\n", a...)
@@ -609,7 +693,7 @@ func (il *inliner) inlineCall(pk *packages.Package, f *ast.File, file string, st
 			return false
 		}
 		s := info.Selections[sel]
-		if s == nil || s.Kind() != types.MethodVal || len(s.Index()) != 1 {
+		if s == nil || s.Kind() != types.MethodVal {
 			return false
 		}
 		rt := sig.Recv().Type()
@@ -617,15 +701,29 @@ func (il *inliner) inlineCall(pk *packages.Package, f *ast.File, file string, st
 		if xt == nil {
 			return false
 		}
+		xtext := text(sel.X)
+		// a method promoted through embedded fields: x.m() is x.f1.f2.m()
+		for _, fi := range s.Index()[:len(s.Index())-1] {
+			t := xt
+			if p, ok := t.(*types.Pointer); ok {
+				t = p.Elem()
+			}
+			st, ok := t.Underlying().(*types.Struct)
+			if !ok || fi >= st.NumFields() {
+				return false
+			}
+			xtext = "(" + xtext + ")." + st.Field(fi).Name()
+			xt = st.Field(fi).Type()
+		}
 		_, rp := rt.(*types.Pointer)
 		_, xp := xt.(*types.Pointer)
 		switch {
 		case rp == xp:
-			argTexts = append(argTexts, text(sel.X))
+			argTexts = append(argTexts, xtext)
 		case rp && !xp:
-			argTexts = append(argTexts, "&("+text(sel.X)+")")
+			argTexts = append(argTexts, "&("+xtext+")")
 		default:
-			argTexts = append(argTexts, "*("+text(sel.X)+")")
+			argTexts = append(argTexts, "*("+xtext+")")
 		}
 		paramVars = append(paramVars, sig.Recv())
 	}
@@ -878,7 +976,7 @@ func (il *inliner) inlineCall(pk *packages.Package, f *ast.File, file string, st
 	}
 
 	// ---- the statement the call is hoisted in front of
-	ins := hoistPoint(stack, call, info)
+	ins := hoistPoint(stack, call, info, di.pure && pureArgs(call))
 	if ins == nil {
 		return false
 	}
@@ -1526,7 +1624,7 @@ type insertion struct {
 
 // hoistPoint decides whether call can be evaluated in front of its statement without changing the order
 // of evaluation, and where.
-func hoistPoint(stack []ast.Node, call *ast.CallExpr, info *types.Info) *insertion {
+func hoistPoint(stack []ast.Node, call *ast.CallExpr, info *types.Info, pure bool) *insertion {
 	// innermost statement that is an element of a statement list (or an else-if, which is opened into a block)
 	idx := -1
 	for i := len(stack) - 1; i > 0 && idx < 0; i-- {
@@ -1668,8 +1766,8 @@ func hoistPoint(stack []ast.Node, call *ast.CallExpr, info *types.Info) *inserti
 	okk := true
 	for i := idx + 1; i < len(stack); i++ {
 		if b, isBin := stack[i].(*ast.BinaryExpr); isBin && (b.Op == token.LAND || b.Op == token.LOR) {
-			if b.Y.Pos() <= call.Pos() && call.End() <= b.Y.End() {
-				okk = false
+			if b.Y.Pos() <= call.Pos() && call.End() <= b.Y.End() && !pure {
+				okk = false // (a callee without effects may be evaluated although the left operand decides)
 			}
 		}
 		switch stack[i].(type) {
@@ -1698,7 +1796,9 @@ func hoistPoint(stack []ast.Node, call *ast.CallExpr, info *types.Info) *inserti
 					if tv, ok := info.Types[x.Fun]; ok && tv.IsType() {
 						return true
 					}
-					okk = false
+					if !pure {
+						okk = false
+					}
 				}
 			case *ast.UnaryExpr:
 				if x.Op == token.ARROW && x.Pos() < call.Pos() {
